@@ -39,6 +39,8 @@ def run(rep, tier, seed, model_ok=True, effort=1):
         vp = r.choice(["", "v"]) + r.choice(BODIES) + r.choice(TAGS)
         if r.random() < 0.1:
             vp, _info = v2gen.gen_pattern(r)
+            if not _info["wf"]:
+                continue       # parts glued together without a separator (`WWMAJOR`): which digits belong to which part is not defined, no claim is made there
         v, d = v2gen.gen_state(r, impl)
         if ("YY" in vp.replace("YYYY", "") or "0Y" in vp) and not (2001 <= v.year_y <= 2099):
             continue
